@@ -1,6 +1,6 @@
-(* IoWitnesses: concrete refutation witnesses (known finding D5) for the full
-   statement of C10, and the readings of the inputs of the repaired findings
-   D4 and D6, proved by vm_compute on canonical dumps. *)
+(* IoWitnesses: the readings of the inputs of the repaired findings D4, D5 and
+   D6 (each was a refutation witness of a full statement of C08 / C10 / C01
+   before its repair), proved by vm_compute on canonical dumps. *)
 From RM Require Import Model.Text Model.Encoding Model.Reader.
 From RM Require Import Proofs.EncodingFacts Proofs.ReaderFacts Proofs.TransparencyFacts.
 Require Import ZArith List.
@@ -17,20 +17,43 @@ Ltac faultless_by_compute :=
   intros k Hin; cbn [In] in Hin;
   repeat (destruct Hin as [Hin|Hin]; [discriminate|]); contradiction.
 
-(* ---------- D5 ---------- *)
+(* ---------- D5 (repaired): code units that contain a byte 0x0A ---------- *)
 
-(* U+4E0A has the bytes 4E 0A: both UTF-16 forms cut the line after it *)
+(* U+4E0A has the bytes 4E 0A: before the repair both UTF-16 forms cut the
+   line after it ("Title:<U+4E0A>" | "x") *)
 Definition d5_text : str := lit "Title:" ++ [19978; 120; 10].
+(* U+0A41 U+010A U+1040A (surrogates D801 DC0A) U+0A00 U+0AFF U+FF0A, a line
+   feed, "z", a line feed, U+200A x *)
+Definition d5_text2 : str := [2625; 266; 66570; 2560; 2815; 65290; 10] ++ lit "z" ++ [10; 8202; 120].
 
-Lemma transparency_refuted :
-  exists s, scalar_str s /\
-    one_chunk (bom_utf8 ++ utf8_enc s) <> one_chunk (bom_le ++ utf16le_enc s) /\
-    one_chunk (bom_utf8 ++ utf8_enc s) <> one_chunk (bom_be ++ utf16be_enc s).
-Proof.
-  exists d5_text. split; [scalar_by_compute|split].
-  - intros H. apply (f_equal show) in H. vm_compute in H. discriminate.
-  - intros H. apply (f_equal show) in H. vm_compute in H. discriminate.
-Qed.
+Lemma former_d5_texts_decode :
+  scalar_str d5_text /\ scalar_str d5_text2 /\
+  show (one_chunk (bom_utf8 ++ utf8_enc d5_text)) = show (IoDone [lit "Title:" ++ [19978; 120]]) /\
+  show (one_chunk (bom_le ++ utf16le_enc d5_text)) = show (IoDone [lit "Title:" ++ [19978; 120]]) /\
+  show (one_chunk (bom_be ++ utf16be_enc d5_text)) = show (IoDone [lit "Title:" ++ [19978; 120]]) /\
+  show (one_chunk (bom_utf8 ++ utf8_enc d5_text2)) = show (IoDone (lines_of_text d5_text2)) /\
+  show (one_chunk (bom_le ++ utf16le_enc d5_text2)) = show (IoDone (lines_of_text d5_text2)) /\
+  show (one_chunk (bom_be ++ utf16be_enc d5_text2)) = show (IoDone (lines_of_text d5_text2)) /\
+  show (IoDone (lines_of_text d5_text2)) = show (IoDone [[2625; 266; 66570; 2560; 2815; 65290]; lit "z"; [8202; 120]]) /\
+  show (read_all_lines (mk_reader (bom_le ++ utf16le_enc d5_text2) (repeat (Chunk 1) 40))) = show (IoDone (lines_of_text d5_text2)) /\
+  show (read_all_lines (mk_reader (bom_be ++ utf16be_enc d5_text2) [Chunk 3; Interrupted; Chunk 2; Chunk 1; Chunk 5])) = show (IoDone (lines_of_text d5_text2)).
+Proof. split; [scalar_by_compute|split; [scalar_by_compute|]]. vm_compute. repeat split. Qed.
+
+(* malformed UTF-16 streams: a byte 0x0A at an odd offset or with a non-zero
+   partner is content; a stream of odd length keeps its lone last byte on the
+   last raw line, where Encoding::decode drops it *)
+Lemma malformed_utf16_lines :
+  (* BE 00 61 | 0A 00 | 62 00 | 0A 63: no unit 000A, one line a U+0A00 U+6200 U+0A63 *)
+  show (one_chunk (bom_be ++ [0; 97; 10; 0; 98; 0; 10; 99])) = show (IoDone [[97; 2560; 25088; 2659]]) /\
+  (* LE 61 00 | 00 0A | 0A 00 | 62: U+0A00 is content, then a line feed, then a lone byte *)
+  show (one_chunk (bom_le ++ [97; 0; 0; 10; 10; 0; 98])) = show (IoDone [[97; 2560]; []]) /\
+  (* LE 61 00 | 0A 01 | 0A: U+010A, then a lone low byte of a line feed at the end *)
+  show (one_chunk (bom_le ++ [97; 0; 10; 1; 10])) = show (IoDone [[97; 266]]) /\
+  (* BE 00 0A | 0A: a line feed, then a lone byte: one blank line and one more *)
+  show (one_chunk (bom_be ++ [0; 10; 10])) = show (IoDone [[]; []]) /\
+  (* BE 0A 0A 00 0A: U+0A0A, then a line feed *)
+  show (one_chunk (bom_be ++ [10; 10; 0; 10; 0; 98])) = show (IoDone [[2570]; [98]]).
+Proof. vm_compute. repeat split. Qed.
 
 (* ---------- D6 (repaired): the former failing inputs now decode ---------- *)
 
